@@ -17,6 +17,7 @@ func init() { register("C13", checkC13) }
 func checkC13(c *chk.Ctx) {
 	h := newH(c)
 	c.Decided = []string{
+		"R13f the records the server itself stores in a format other than StorageEntry live under keys that no client request can name (open finding F29: notification batches are stored under __oxia/notifications/ and requests are not kept out of the __oxia/ key space)",
 		"R13e while a request is applied, a method is only called on a possibly-nil helper object of the kv package (the per-write notification recorder is nil when notifications are disabled) under a nil test at the call or inside the method: applying a request never panics because of the shard's configuration",
 		"R13a the error result of applying a logged request can only originate from the storage layer / (de)serialisation of stored data: no repository sentinel that classifies request content, no error constructed while applying, no parse of request- or key-derived text",
 		"R13c the step of BecomeLeader that re-arms the sessions from the replayed DB (SessionManager.Initialize) cannot fail because of what a stored key or value looks like: its error only originates from the storage layer",
@@ -31,6 +32,7 @@ func checkC13(c *chk.Ctx) {
 	ruleR13c(h)
 	ruleR13d(h)
 	ruleR13e(h)
+	ruleR13f(h)
 	h.Rule("R13b", "K1", "apply loops stop at the first failing entry (shared with R07c)", 4)
 	ruleR07cInto(h, "R13b")
 }
@@ -353,5 +355,95 @@ func ruleR13e(h *H) {
 	}
 	if n == 0 {
 		h.Anchor(rule, "method calls on possibly-nil receivers in server/kv")
+	}
+}
+
+// ruleR13f: applying a put / delete / delete-range decodes the value currently stored under
+// the request's key (or under the keys of its range) as a StorageEntry. R13a counts that
+// decode as "infrastructure" - which is only true if every value a request key can reach
+// IS a StorageEntry. The server also stores records of other formats; those must live
+// where request keys cannot go, or a request naming such a key fails to apply on every
+// replica, for ever.
+func ruleR13f(h *H) {
+	const rule = "R13f"
+	h.Rule(rule, "K3", "every WriteBatch.Put made by the server stores a serialised StorageEntry (or an empty value), or its key prefix is excluded from request keys by a test on the internal key prefix in front of the apply path's reads", 3)
+	isEntryBytes := func(v ssa.Value) bool {
+		return ir.DependsOn(v, func(x ssa.Value) bool {
+			c, ok := x.(*ssa.Call)
+			if !ok {
+				return false
+			}
+			f := c.Call.StaticCallee()
+			if f == nil || len(c.Call.Args) == 0 {
+				return false
+			}
+			return strings.HasPrefix(f.Name(), "MarshalVT") && ir.TypeIs(c.Call.Args[0].Type(), "proto", "StorageEntry")
+		})
+	}
+	isEmpty := func(v ssa.Value) bool {
+		switch x := ir.Canon(v).(type) {
+		case *ssa.Const:
+			return true
+		case *ssa.Slice:
+			if al, ok := x.X.(*ssa.Alloc); ok {
+				if pt, isP := al.Type().Underlying().(*types.Pointer); isP {
+					if arr, isA := pt.Elem().Underlying().(*types.Array); isA && arr.Len() == 0 {
+						return true
+					}
+				}
+			}
+		case *ssa.UnOp:
+			if g, ok := x.X.(*ssa.Global); ok && strings.Contains(strings.ToLower(g.Name()), "empty") {
+				return true
+			}
+		}
+		return false
+	}
+	// is the request key space fenced off from the internal prefix in front of the reads of the apply path?
+	fenced := false
+	for _, root := range applyRoots(h, rule) {
+		for f := range h.P.Closure([]*ssa.Function{root}, applyDescend) {
+			if f.Blocks == nil || ir.RelPkg(ir.PkgPathOf(f)) != "server/kv" {
+				continue
+			}
+			for _, c := range h.P.CallsIn(f, batchGet) {
+				for _, g := range ir.Guards(c) {
+					cond, taken := g.Cond, g.Taken
+					if u, ok := cond.(*ssa.UnOp); ok && u.Op == token.NOT {
+						cond, taken = u.X, !taken
+					}
+					if call, ok := cond.(*ssa.Call); ok && !taken {
+						if fn := call.Call.StaticCallee(); fn != nil && fn.Name() == "HasPrefix" && len(call.Call.Args) == 2 && h.isConst(call.Call.Args[1], "common/constant", "InternalKeyPrefix") {
+							fenced = true
+						}
+					}
+				}
+			}
+		}
+	}
+	n := 0
+	for _, s := range h.P.AllCalls(func(f *ssa.Function) bool {
+		p := ir.RelPkg(ir.PkgPathOf(f))
+		return p == "server" || p == "server/kv"
+	}, batchPut) {
+		val := argOf(s.Call.Common(), 1)
+		n++
+		h.Fn(ir.FuncName(s.Fn))
+		prefix := ""
+		if parts, ok := ir.SymString(argOf(s.Call.Common(), 0)); ok && len(parts) > 0 && parts[0].Val == nil {
+			prefix = parts[0].Lit
+		}
+		name := fmt.Sprintf("record stored under %q in %s", prefix, ir.FuncName(s.Fn))
+		switch {
+		case isEntryBytes(val) || isEmpty(val):
+			h.OK(rule, name, h.pos(s.Call), "a serialised StorageEntry or an empty value")
+		case fenced:
+			h.OK(rule, name, h.pos(s.Call), "another format, under the internal prefix, which request keys are tested against")
+		default:
+			h.Bad(rule, name, h.pos(s.Call), fmt.Sprintf("the server stores a record that is not a StorageEntry under %q, and nothing keeps the keys of client requests out of that prefix: a put / delete on such a key (or a delete-range covering it) decodes the record as a StorageEntry, fails with a decode error in ProcessWrite, and stops every follower's apply loop and every later BecomeLeader replay", prefix))
+		}
+	}
+	if n == 0 {
+		h.Anchor(rule, "WriteBatch.Put calls of the server")
 	}
 }
